@@ -6,8 +6,9 @@ import PdModel.Proto
 * `projectname <E|-> N*`              → `ok <name>`                 (driver.get_system; E = --project-name)
 * `projectnameold <E|-> N*`           → `ok <name>`                 (the same step before /repo f35e237)
 * `pageurl FULL N*`                   → `ok <name>`                 (Documentable.url of a page object)
-* `symlink N*`                        → `none` | `link <name>` | `IndexError`   (writeSummaryPages tail)
-* `indexpage N*`                      → `yes` | `no`                (summaryPages: IndexPage present)
+* `symlink FILES N*`                  → `none` | `link <name>` | `IndexError`   (writeSummaryPages tail; FILES = `,`-joined
+                                         file names of the run's summary + search pages, or `-`)
+* `indexpage <0|1> N*`                → `yes` | `no`                (summaryPages: IndexPage present; flag = some root object is visible)
 * `unknownroot PFX N*`                → `yes` | `no`                (linker: prefix not in root_names)
 * `popsingle N*`                      → `none` | `ok <name>`        (astutils._annotation_for_elements)
 * `rootkinds N*`                      → `ok <name>`                 (IndexPage.rootkind, on the kind names)
@@ -149,14 +150,14 @@ def handle (args : List String) : String :=
     match decName f, decNames ns with
     | some full, some l => "ok " ++ encName (pageUrl l full)
     | _, _ => "bad-op"
-  | "symlink" :: ns =>
-    match decNames ns with
-    | some l => (match rootSymlink l with
+  | "symlink" :: files :: ns =>
+    match decNameList files, decNames ns with
+    | some fs, some l => (match rootSymlink l fs with
       | .noLink => "none" | .link n => "link " ++ encName n | .indexError => "IndexError")
-    | none => "bad-op"
-  | "indexpage" :: ns =>
+    | _, _ => "bad-op"
+  | "indexpage" :: vis :: ns =>
     match decNames ns with
-    | some l => if hasIndexPage l then "yes" else "no"
+    | some l => if hasIndexPage l (vis == "1") then "yes" else "no"
     | none => "bad-op"
   | "unknownroot" :: p :: ns =>
     match decName p, decNames ns with
